@@ -1,5 +1,24 @@
 (* PropC17.v — the SCAN guarantee for the cursor walk [scan_call] of Dict.v
-   (dictScanUnlocked over the one-item-per-bucket dictionary of redisDict.go). *)
+   (dictScanUnlocked of dataStoreCommands.go over the one-item-per-bucket dictionary of redisDict.go).
+
+   Formulation: a 64-bit hash h has the position [pos h = rev32 (h mod 2^32)] in [0, 2^32); a table of
+   2^k slots has stride [S_ k = 2^(32-k)] and slot i covers the positions [i*S, (i+1)*S).  A wire cursor c
+   stands for the position [rev32 c]; the returned cursor 0 stands for position 2^32 ([cur_pos]).
+
+   Contents
+   1. rev32: bit-level characterisation [rev32_testbit], involution [rev32_rev32], [rev32_low_shift]
+      (hash_to_index h k = pos h / S_ k), [rev32_mod_pow2] (cursor mod 2^k = rounding the position DOWN).
+   2. [wf_dict], [hash_to_index_pos].
+   3. one call: [scan_call_spec] (slot space), [scan_call_progress], [scan_call_covers], [scan_call_sound].
+   4. iterations over arbitrarily changing tables: [C17_complete], [C17_sound], [C17_never_absent].
+   5. termination on a fixed table: [C17_terminates_gen] (<= 2^k - slot calls from any cursor),
+      [C17_terminates_sharp] (<= occupied + 1), [C17_terminates].
+   6. MATCH/TYPE/COUNT: [C17_filter_monotone], [C17_filter_conj], [C17_single_call],
+      [C17_single_call_conj], [C17_filters], [C17_stable_exact].
+   7. dictionary layer: [wf_empty_dict], [store_elements], [store_ok], [store_diverge_iff],
+      [remove_elements], [remove_ok] (incl. the halving: [shrink_no_collide]; the doubling:
+      [grow_no_collide]; [rehash_elements]), [reachable_wf], [C17_complete_reachable].
+   Examples at the end (module Examples). *)
 From RE Require Import Base Dict.
 From Coq Require Import Lia.
 Open Scope N_scope.
@@ -889,6 +908,762 @@ Print Assumptions C17_filter_conj.
 Print Assumptions C17_single_call.
 Print Assumptions C17_single_call_conj.
 
+(** The requested summary statement for MATCH/TYPE/COUNT, bundling the results above. *)
+Theorem C17_filters {V} (d : dict V) : wf_dict d ->
+  (* (a) two filters combined, any cursor, any COUNT >= 1: the combined call gets at least as far,
+         reports every item of the single-filter call that passes the second filter, and reports only
+         stored items passing both *)
+  (forall keep1 keep2 c count c1 out1 c12 out12, (1 <= count)%nat ->
+     scan_call d keep1 c count = (c1, out1) ->
+     scan_call d (fun it => keep1 it && keep2 it) c count = (c12, out12) ->
+     cur_pos c1 <= cur_pos c12 /\
+     (forall it, In it out1 -> keep2 it = true -> In it out12) /\
+     (forall it, In it out12 -> keep1 it = true /\ keep2 it = true /\
+                                get d (it_key it) (it_hash it) = Some (it_val it))) /\
+  (* (b) a larger COUNT only makes the batch larger *)
+  (forall keep c cnt1 cnt2 c1 out1 c2 out2, (1 <= cnt1 <= cnt2)%nat ->
+     scan_call d keep c cnt1 = (c1, out1) -> scan_call d keep c cnt2 = (c2, out2) ->
+     cur_pos c1 <= cur_pos c2 /\ forall it, In it out1 -> In it out2) /\
+  (* (c) COUNT >= number of slots, cursor 0: one call returns cursor 0 and exactly the matching items *)
+  (forall keep count c' out, pow2 (d_log d) <= N.of_nat count ->
+     scan_call d keep 0 count = (c', out) ->
+     c' = 0 /\ forall it, In it out <->
+                 slot d (hash_to_index (it_hash it) (d_log d)) = Some it /\ keep it = true).
+Proof.
+  intro Hwf. split; [|split].
+  - intros. eapply C17_filter_conj; eauto.
+  - intros keep c cnt1 cnt2 c1 out1 c2 out2 Hc E1 E2.
+    destruct (C17_filter_monotone d Hwf keep keep c cnt1 cnt2 c1 out1 c2 out2) as [A B]; auto.
+    split; [assumption|]. intros it Hin. apply B; [assumption|].
+    now destruct (scan_call_sound d keep c cnt1 c1 out1 Hwf ltac:(lia) E1 it Hin) as (H & _).
+  - intros. eapply C17_single_call; eauto.
+Qed.
+
+Print Assumptions C17_filters.
+
+Lemma Forall2_In_r {A B} (R : A -> B -> Prop) l l' : Forall2 R l l' ->
+  forall y, In y l' -> exists x, In x l /\ R x y.
+Proof.
+  induction 1 as [|x y l l' Hxy HF IH]; intros y0 Hin; [destruct Hin|].
+  destruct Hin as [<-|Hin].
+  - exists x. split; [now left | assumption].
+  - destruct (IH y0 Hin) as (x0 & Hx0 & HR0). exists x0. split; [now right | assumption].
+Qed.
+
+(** On a table that does not change during the iteration, with one filter and arbitrary COUNTs,
+    a full iteration reports exactly the stored items that pass the filter. *)
+Theorem C17_stable_exact {V} (d : dict V) keep (counts : list nat) outs :
+  wf_dict d -> counts <> [] -> Forall (fun n => (1 <= n)%nat) counts ->
+  run (map (fun n => (d, keep, n)) counts) 0 = (0, outs) ->
+  forall it, (exists out, In out outs /\ In it out) <->
+             (slot d (hash_to_index (it_hash it) (d_log d)) = Some it /\ keep it = true).
+Proof.
+  intros Hwf Hne Hcnt Hrun it.
+  assert (Hok : Forall (@call_ok V) (map (fun n => (d, keep, n)) counts)).
+  { apply Forall_forall. intros cl Hin. apply in_map_iff in Hin. destruct Hin as (n & <- & Hn).
+    rewrite Forall_forall in Hcnt. split; [assumption | now apply Hcnt]. }
+  split.
+  - intros (out & Ho & Hi).
+    pose proof (C17_sound _ 0 0 outs Hok Hrun) as HS.
+    destruct (Forall2_In_r _ _ _ HS out Ho) as (cl & Hcl & HR).
+    apply in_map_iff in Hcl. destruct Hcl as (n & <- & Hn). cbv beta iota in HR.
+    destruct (HR it Hi) as (A & B & _). now split.
+  - intros [Hs Hkp]. destruct it as [h key v]. cbn [it_hash] in Hs.
+    destruct (C17_complete (map (fun n => (d, keep, n)) counts) outs) with (key := key) (h := h)
+      as (out & v' & Ho & Hi); try assumption.
+    + destruct counts; [congruence | discriminate].
+    + apply Forall_forall. intros cl Hin. apply in_map_iff in Hin. destruct Hin as (n & <- & Hn).
+      exists v. split; assumption.
+    + exists out. split; [assumption|].
+      (* the reported item is the stored one: same slot *)
+      pose proof (C17_sound _ 0 0 outs Hok Hrun) as HS.
+      destruct (Forall2_In_r _ _ _ HS out Ho) as (cl & Hcl & HR).
+      apply in_map_iff in Hcl. destruct Hcl as (n & <- & Hn). cbv beta iota in HR.
+      destruct (HR _ Hi) as (_ & B & _). cbn [it_hash] in B. rewrite Hs in B. injection B as <-. assumption.
+Qed.
+
+Print Assumptions C17_stable_exact.
+
+(* ================================================================== *)
+(** * 7. The dictionary: store / remove / rehash keep every element     *)
+(* ================================================================== *)
+
+Lemma set_nth_length {A} (l : list A) : forall n x, length (set_nth l n x) = length l.
+Proof. induction l as [|a l IH]; intros [|n] x; cbn [set_nth length]; try reflexivity. now rewrite IH. Qed.
+
+Lemma nth_set_nth {A} (l : list A) : forall n x m d,
+  nth m (set_nth l n x) d = if (Nat.eqb m n && Nat.ltb n (length l))%bool then x else nth m l d.
+Proof.
+  induction l as [|a l IH]; intros n x m d.
+  - assert (E : set_nth [] n x = []) by (destruct n; reflexivity). rewrite E.
+    cbn [length]. replace (Nat.ltb n 0) with false by (symmetry; apply Nat.ltb_ge; lia).
+    now rewrite andb_false_r.
+  - destruct n as [|n], m as [|m]; cbn [set_nth nth length]; try reflexivity.
+    rewrite IH. reflexivity.
+Qed.
+
+Lemma nth_set_nth_eq {A} (l : list A) n x d : (n < length l)%nat -> nth n (set_nth l n x) d = x.
+Proof.
+  intro H. rewrite nth_set_nth, Nat.eqb_refl. apply Nat.ltb_lt in H. now rewrite H.
+Qed.
+
+Lemma nth_set_nth_neq {A} (l : list A) n x m d : m <> n -> nth m (set_nth l n x) d = nth m l d.
+Proof. intro H. rewrite nth_set_nth. apply Nat.eqb_neq in H. now rewrite H. Qed.
+
+Lemma repeatN_length {A} (x : A) n : length (repeatN x n) = n.
+Proof. induction n as [|n IH]; cbn [repeatN length]; [reflexivity | now rewrite IH]. Qed.
+
+Lemma nth_repeatN {A} (x : A) : forall n m, nth m (repeatN x n) x = x.
+Proof. induction n as [|n IH]; intros [|m]; cbn [repeatN nth]; try reflexivity. apply IH. Qed.
+
+Lemma In_slots_nth {A} (sl : list (option A)) x : In (Some x) sl <-> exists m, nth m sl None = Some x.
+Proof.
+  split.
+  - intro H. destruct (In_nth _ _ None H) as (m & _ & E). now exists m.
+  - intros (m & E). destruct (Nat.lt_ge_cases m (length sl)) as [L|G].
+    + rewrite <- E. now apply nth_In.
+    + rewrite nth_overflow in E by assumption. discriminate.
+Qed.
+
+Lemma option_eq_of_iff {A} (a b : option A) : (forall v, a = Some v <-> b = Some v) -> a = b.
+Proof.
+  intro H. destruct a as [x|], b as [y|]; try reflexivity.
+  - symmetry. now apply H.
+  - symmetry. now apply H.
+  - now apply H.
+Qed.
+
+(* ---- arithmetic of slots at different table sizes ---- *)
+
+Lemma hash_to_index_mod h1 h2 k : (k <= 32)%nat ->
+  (hash_to_index h1 k = hash_to_index h2 k <-> h1 mod pow2 k = h2 mod pow2 k).
+Proof.
+  intro Hk. split.
+  - unfold hash_to_index. intro E. apply rev32_inj in E.
+    + apply N.mul_cancel_r in E; [assumption|]. pose proof (pow2_pos (32 - k)). lia.
+    + rewrite <- (pow2_S_ k Hk). apply N.mul_lt_mono_pos_r; [apply S_pos|].
+      apply N.mod_lt. pose proof (pow2_pos k). lia.
+    + rewrite <- (pow2_S_ k Hk). apply N.mul_lt_mono_pos_r; [apply S_pos|].
+      apply N.mod_lt. pose proof (pow2_pos k). lia.
+  - unfold hash_to_index. now intros ->.
+Qed.
+
+Lemma pow2_add a b : pow2 (a + b) = pow2 a * pow2 b.
+Proof. unfold pow2. rewrite Nat2N.inj_add. apply N.pow_add_r. Qed.
+
+(* equal residues modulo the larger table imply equal residues modulo the smaller *)
+Lemma mod_pow2_coarsen h1 h2 k k' : (k <= k')%nat ->
+  h1 mod pow2 k' = h2 mod pow2 k' -> h1 mod pow2 k = h2 mod pow2 k.
+Proof.
+  intros Hk E. replace k' with (k + (k' - k))%nat in E by lia. rewrite pow2_add in E.
+  pose proof (pow2_pos k) as P1. pose proof (pow2_pos (k' - k)) as P2.
+  assert (F : forall h, h mod pow2 k = (h mod (pow2 k * pow2 (k' - k))) mod pow2 k).
+  { intro h. rewrite N.mod_mul_r by lia.
+    rewrite (N.mul_comm (pow2 k) ((h / pow2 k) mod pow2 (k' - k))).
+    rewrite N.mod_add by lia. now rewrite N.mod_mod by lia. }
+  rewrite (F h1), (F h2). now rewrite E.
+Qed.
+
+Lemma hash_to_index_coarsen h1 h2 k k' : (k <= k' <= 32)%nat ->
+  hash_to_index h1 k' = hash_to_index h2 k' -> hash_to_index h1 k = hash_to_index h2 k.
+Proof.
+  intros Hk E. apply hash_to_index_mod; [lia|]. apply (mod_pow2_coarsen h1 h2 k k'); [lia|].
+  apply hash_to_index_mod in E; [assumption | lia].
+Qed.
+
+(* halving the table merges the slots 2m and 2m+1 *)
+Lemma hash_to_index_half h k : (1 <= k <= 32)%nat ->
+  hash_to_index h (k - 1) = hash_to_index h k / 2.
+Proof.
+  intro Hk. rewrite !hash_to_index_pos by lia. unfold S_.
+  replace (32 - (k - 1))%nat with (S (32 - k)) by lia.
+  unfold pow2. rewrite Nat2N.inj_succ, N.pow_succ_r'. rewrite (N.mul_comm 2).
+  rewrite N.div_div; [reflexivity | apply N.pow_nonzero; discriminate | discriminate].
+Qed.
+
+Section Rehash.
+  Context {V : Type}.
+  Notation slots := (list (option (item V))).
+
+  (* slot number (as a list index) of an item in a table of 2^k slots *)
+  Definition idx (it : item V) (k : nat) : nat := N.to_nat (hash_to_index (it_hash it) k).
+
+  Definition place (k : nat) (acc : slots) (o : option (item V)) : slots :=
+    match o with Some it => set_nth acc (idx it k) (Some it) | None => acc end.
+
+  Lemma rehash_slots_fold (sl : slots) k :
+    rehash_slots sl k = fold_left (place k) sl (repeatN None (N.to_nat (pow2 k))).
+  Proof. unfold rehash_slots, place, idx. reflexivity. Qed.
+
+  Lemma idx_lt it k : (k <= 32)%nat -> (idx it k < N.to_nat (pow2 k))%nat.
+  Proof. intro Hk. unfold idx. pose proof (hash_to_index_lt (it_hash it) k Hk). lia. Qed.
+
+  Lemma idx_eq_iff it1 it2 k :
+    idx it1 k = idx it2 k <-> hash_to_index (it_hash it1) k = hash_to_index (it_hash it2) k.
+  Proof. unfold idx. split; [apply N2Nat.inj | now intros ->]. Qed.
+
+  Lemma place_length k acc o : length (place k acc o) = length acc.
+  Proof. destruct o; cbn [place]; [apply set_nth_length | reflexivity]. Qed.
+
+  Lemma fold_place_length k : forall (sl acc : slots), length (fold_left (place k) sl acc) = length acc.
+  Proof.
+    induction sl as [|o sl IH]; intro acc; cbn [fold_left]; [reflexivity|].
+    now rewrite IH, place_length.
+  Qed.
+
+  (* everything found in the result was in the accumulator or is an item of the list, at its own slot *)
+  Lemma fold_place_sound k : forall (sl acc : slots) m it,
+    nth m (fold_left (place k) sl acc) None = Some it ->
+    nth m acc None = Some it \/ (In (Some it) sl /\ idx it k = m).
+  Proof.
+    induction sl as [|o sl IH]; intros acc m it H; cbn [fold_left] in H; [now left|].
+    apply IH in H. destruct H as [H|[H1 H2]].
+    - destruct o as [it2|]; cbn [place] in H; [|now left].
+      rewrite nth_set_nth in H.
+      destruct (Nat.eqb m (idx it2 k) && Nat.ltb (idx it2 k) (length acc))%bool eqn:E; [|now left].
+      apply andb_true_iff in E. destruct E as [E _]. apply Nat.eqb_eq in E.
+      inversion H; subst it2. right. split; [now left | now symmetry].
+    - right. split; [now right | assumption].
+  Qed.
+
+  (* a slot keeps its content if no later item of the list claims it *)
+  Lemma fold_place_keep k : forall (sl acc : slots) m (x : option (item V)),
+    nth m acc None = x ->
+    (forall it2, In (Some it2) sl -> idx it2 k = m -> x = Some it2) ->
+    nth m (fold_left (place k) sl acc) None = x.
+  Proof.
+    induction sl as [|o sl IH]; intros acc m x Hx Hno; cbn [fold_left]; [assumption|].
+    apply IH.
+    - destruct o as [it2|]; cbn [place]; [|assumption].
+      rewrite nth_set_nth.
+      destruct (Nat.eqb m (idx it2 k) && Nat.ltb (idx it2 k) (length acc))%bool eqn:E; [|assumption].
+      apply andb_true_iff in E. destruct E as [E _]. apply Nat.eqb_eq in E.
+      symmetry. apply Hno; [now left | now symmetry].
+    - intros it2 Hin. apply Hno. now right.
+  Qed.
+
+  (* an item of the list ends up in its slot if no other item of the list claims that slot *)
+  Lemma fold_place_complete k : forall (sl acc : slots) it,
+    In (Some it) sl ->
+    (forall it2, In (Some it2) sl -> idx it2 k = idx it k -> it2 = it) ->
+    (idx it k < length acc)%nat ->
+    nth (idx it k) (fold_left (place k) sl acc) None = Some it.
+  Proof.
+    induction sl as [|o sl IH]; intros acc it Hin Hinj Hlen; [destruct Hin|].
+    cbn [fold_left]. destruct Hin as [->|Hin].
+    - cbn [place]. apply fold_place_keep.
+      + now apply nth_set_nth_eq.
+      + intros it2 H2 E. f_equal. symmetry. apply Hinj; [now right | assumption].
+    - apply IH; [assumption | | now rewrite place_length].
+      intros it2 H2. apply Hinj. now right.
+  Qed.
+
+  Definition no_collide (sl : slots) (k : nat) : Prop :=
+    forall it1 it2, In (Some it1) sl -> In (Some it2) sl -> idx it1 k = idx it2 k -> it1 = it2.
+
+  Lemma rehash_length (sl : slots) k : length (rehash_slots sl k) = N.to_nat (pow2 k).
+  Proof. rewrite rehash_slots_fold, fold_place_length. apply repeatN_length. Qed.
+
+  Lemma rehash_sound (sl : slots) k m it :
+    nth m (rehash_slots sl k) None = Some it -> In (Some it) sl /\ idx it k = m.
+  Proof.
+    rewrite rehash_slots_fold. intro H. apply fold_place_sound in H. destruct H as [H|H]; [|assumption].
+    rewrite nth_repeatN in H. discriminate.
+  Qed.
+
+  Lemma rehash_complete (sl : slots) k it : (k <= 32)%nat -> no_collide sl k ->
+    In (Some it) sl -> nth (idx it k) (rehash_slots sl k) None = Some it.
+  Proof.
+    intros Hk Hnc Hin. rewrite rehash_slots_fold. apply fold_place_complete.
+    - assumption.
+    - intros it2 H2 E. now apply Hnc.
+    - rewrite repeatN_length. now apply idx_lt.
+  Qed.
+
+  (* the elements of a rehashed table are exactly the elements of the old one *)
+  Lemma rehash_elements (sl : slots) k it : (k <= 32)%nat -> no_collide sl k ->
+    (In (Some it) (rehash_slots sl k) <-> In (Some it) sl).
+  Proof.
+    intros Hk Hnc. split.
+    - intro H. apply In_slots_nth in H. destruct H as (m & H). now apply rehash_sound in H.
+    - intro H. apply In_slots_nth. exists (idx it k). now apply rehash_complete.
+  Qed.
+
+  (* ---- well-formed slot lists ---- *)
+  Definition wf_slots (sl : slots) (k : nat) : Prop :=
+    length sl = N.to_nat (pow2 k) /\ forall m it, nth m sl None = Some it -> idx it k = m.
+
+  Lemma wf_dict_slots (d : dict V) :
+    wf_dict d <-> (wf_slots (d_slots d) (d_log d) /\ (4 <= d_log d <= 32)%nat).
+  Proof.
+    unfold wf_dict, wf_slots, slot, idx. split.
+    - intros (A & B & C). split; [split|]; try assumption.
+      intros m it H. specialize (C (N.of_nat m) it). rewrite Nat2N.id in C. rewrite (C H). apply Nat2N.id.
+    - intros ((A & C) & B). split; [assumption|]. split; [assumption|].
+      intros i it H. apply N2Nat.inj. now apply C.
+  Qed.
+
+  Lemma rehash_wf (sl : slots) k : wf_slots (rehash_slots sl k) k.
+  Proof.
+    split; [apply rehash_length|]. intros m it H. now apply rehash_sound in H.
+  Qed.
+
+  (* in a well-formed table an element sits in exactly one slot: its own *)
+  Lemma wf_slots_In (sl : slots) k it : wf_slots sl k ->
+    (In (Some it) sl <-> nth (idx it k) sl None = Some it).
+  Proof.
+    intros [_ Hw]. split.
+    - intro H. apply In_slots_nth in H. destruct H as (m & H). pose proof (Hw m it H) as E. now rewrite E.
+    - intro H. apply In_slots_nth. now exists (idx it k).
+  Qed.
+
+  (* growing never merges two slots *)
+  Lemma grow_no_collide (sl : slots) k k' : wf_slots sl k -> (k <= k' <= 32)%nat -> no_collide sl k'.
+  Proof.
+    intros Hw Hk it1 it2 H1 H2 E.
+    assert (E' : idx it1 k = idx it2 k).
+    { apply idx_eq_iff. apply (hash_to_index_coarsen _ _ k k'); [lia|]. now apply idx_eq_iff. }
+    apply (wf_slots_In sl k _ Hw) in H1. apply (wf_slots_In sl k _ Hw) in H2.
+    rewrite E' in H1. rewrite H1 in H2. now inversion H2.
+  Qed.
+
+  (* [reducible]: no pair of slots (2m, 2m+1) is fully occupied *)
+  Lemma reducible_spec : forall m (sl : slots), reducible sl = true ->
+    nth (2 * m) sl None <> None -> nth (2 * m + 1) sl None <> None -> False.
+  Proof.
+    induction m as [|m IH]; intros sl Hr H0 H1.
+    - destruct sl as [|a [|b r]]; cbn in H0, H1; try congruence.
+      destruct a, b; cbn [reducible] in Hr; congruence.
+    - destruct sl as [|a [|b r]].
+      + destruct (2 * S m)%nat; cbn in H0; congruence.
+      + replace (2 * S m)%nat with (S (S (2 * m))) in H0 by lia. cbn [nth] in H0.
+        destruct (2 * m)%nat; cbn in H0; congruence.
+      + replace (2 * S m)%nat with (S (S (2 * m))) in H0 by lia.
+        replace (2 * S m + 1)%nat with (S (S (2 * m + 1))) in H1 by lia.
+        cbn [nth] in H0, H1. apply (IH r); try assumption.
+        destruct a, b; cbn [reducible] in Hr; try assumption. discriminate.
+  Qed.
+
+  (* halving a reducible table merges no two occupied slots *)
+  Lemma shrink_no_collide (sl : slots) k : wf_slots sl k -> (1 <= k <= 32)%nat ->
+    reducible sl = true -> no_collide sl (k - 1).
+  Proof.
+    intros Hw Hk Hr it1 it2 H1 H2 E.
+    apply (wf_slots_In sl k _ Hw) in H1. apply (wf_slots_In sl k _ Hw) in H2.
+    apply idx_eq_iff in E. rewrite !hash_to_index_half in E by lia.
+    assert (Ia : idx it1 k = N.to_nat (hash_to_index (it_hash it1) k)) by (unfold idx; reflexivity).
+    assert (Ib : idx it2 k = N.to_nat (hash_to_index (it_hash it2) k)) by (unfold idx; reflexivity).
+    rewrite Ia in H1. rewrite Ib in H2. clear Ia Ib.
+    revert E H1 H2.
+    generalize (hash_to_index (it_hash it1) k) as a. generalize (hash_to_index (it_hash it2) k) as b.
+    intros b a E H1 H2.
+    pose proof (N.div_mod a 2 ltac:(lia)) as Da. pose proof (N.div_mod b 2 ltac:(lia)) as Db.
+    pose proof (N.mod_lt a 2 ltac:(lia)) as La. pose proof (N.mod_lt b 2 ltac:(lia)) as Lb.
+    destruct (N.eq_dec a b) as [Eab|Nab].
+    - subst b. rewrite H1 in H2. now inversion H2.
+    - exfalso. rewrite <- E in Db.
+      set (q := a / 2) in *. set (ra := a mod 2) in *. set (rb := b mod 2) in *. clearbody q ra rb.
+      set (m := N.to_nat q).
+      assert (Hcase : (N.to_nat a = 2 * m /\ N.to_nat b = 2 * m + 1)%nat \/
+                      (N.to_nat b = 2 * m /\ N.to_nat a = 2 * m + 1)%nat) by (unfold m; lia).
+      destruct Hcase as [[Ea Eb]|[Eb Ea]]; rewrite Ea in H1; rewrite Eb in H2;
+        apply (reducible_spec m sl Hr); congruence.
+  Qed.
+End Rehash.
+
+Lemma grow_until_some : forall fuel k h1 h2 k', grow_until fuel k h1 h2 = Some k' ->
+  (k < k' <= k + fuel)%nat /\ h1 mod pow2 k' <> h2 mod pow2 k'.
+Proof.
+  induction fuel as [|f IH]; intros k h1 h2 k' H; cbn [grow_until] in H; [discriminate|].
+  destruct (h1 mod pow2 (S k) =? h2 mod pow2 (S k)) eqn:E.
+  - apply IH in H. destruct H as [A B]. split; [lia | assumption].
+  - inversion H; subst k'. apply N.eqb_neq in E. split; [lia | assumption].
+Qed.
+
+Lemma grow_until_none : forall fuel k h1 h2, grow_until fuel k h1 h2 = None ->
+  forall k', (k < k' <= k + fuel)%nat -> h1 mod pow2 k' = h2 mod pow2 k'.
+Proof.
+  induction fuel as [|f IH]; intros k h1 h2 H k' Hk'; [lia|].
+  cbn [grow_until] in H.
+  destruct (h1 mod pow2 (S k) =? h2 mod pow2 (S k)) eqn:E; [|discriminate].
+  apply N.eqb_eq in E. destruct (Nat.eq_dec k' (S k)) as [->|Hne]; [assumption|].
+  apply (IH (S k)); [assumption | lia].
+Qed.
+
+Section DictOps.
+  Context {V : Type}.
+  Notation slots := (list (option (item V))).
+  Variable hf : bytes -> N.      (* the hash function (SipHash in the Go code): arbitrary *)
+
+  (* the elements of a table *)
+  Definition stored (d : dict V) (it : item V) : Prop := In (Some it) (d_slots d).
+  (* every element carries the hash of its key *)
+  Definition keyed (d : dict V) : Prop := forall it, stored d it -> it_hash it = hf (it_key it).
+
+  Lemma idx_mk h key (v : V) k : idx (mkItem h key v) k = N.to_nat (hash_to_index h k).
+  Proof. unfold idx. cbn [it_hash]. reflexivity. Qed.
+
+  Lemma idx_hash (it : item V) k : idx it k = N.to_nat (hash_to_index (it_hash it) k).
+  Proof. unfold idx. reflexivity. Qed.
+
+  Lemma slot_nth (d : dict V) i : slot d i = nth (N.to_nat i) (d_slots d) None.
+  Proof. unfold slot. reflexivity. Qed.
+
+  Lemma stored_slot (d : dict V) it : wf_dict d ->
+    (stored d it <-> slot d (hash_to_index (it_hash it) (d_log d)) = Some it).
+  Proof.
+    intro Hwf. apply wf_dict_slots in Hwf. destruct Hwf as [Hw _].
+    unfold stored. rewrite (wf_slots_In _ _ it Hw). rewrite slot_nth, idx_hash. reflexivity.
+  Qed.
+
+  Lemma get_stored (d : dict V) key v : wf_dict d -> keyed d ->
+    (get d key (hf key) = Some v <-> stored d (mkItem (hf key) key v)).
+  Proof.
+    intros Hwf Hkd. split.
+    - unfold get. intro H. destruct (slot d (hash_to_index (hf key) (d_log d))) as [it|] eqn:Es; [|discriminate].
+      destruct (bytes_eqb (it_key it) key) eqn:Eb; [|discriminate].
+      apply bytes_eqb_eq in Eb. inversion H; subst v.
+      assert (Hst : stored d it).
+      { unfold stored. apply In_slots_nth. exists (N.to_nat (hash_to_index (hf key) (d_log d))).
+        now rewrite <- slot_nth. }
+      pose proof (Hkd it Hst) as Hh. destruct it as [h0 k0 v0]. cbn [it_hash it_key it_val] in *. now subst.
+    - intro H. apply (stored_slot d _ Hwf) in H. cbn [it_hash] in H.
+      unfold get. rewrite H. cbn [it_key it_val]. now rewrite bytes_eqb_refl.
+  Qed.
+
+  (* no key is stored twice *)
+  Lemma stored_key_unique (d : dict V) it1 it2 : wf_dict d -> keyed d ->
+    stored d it1 -> stored d it2 -> it_key it1 = it_key it2 -> it1 = it2.
+  Proof.
+    intros Hwf Hkd H1 H2 E.
+    pose proof (Hkd it1 H1) as A. pose proof (Hkd it2 H2) as B. rewrite E in A. rewrite <- B in A.
+    apply (stored_slot d _ Hwf) in H1. apply (stored_slot d _ Hwf) in H2.
+    rewrite A in H1. rewrite H1 in H2. now inversion H2.
+  Qed.
+
+  (* overwriting one slot of a well-formed slot list *)
+  Lemma set_slot_elements (sl : slots) k n (x : option (item V)) :
+    wf_slots sl k -> (n < length sl)%nat ->
+    (forall it, x = Some it -> idx it k = n) ->
+    wf_slots (set_nth sl n x) k /\
+    forall it, In (Some it) (set_nth sl n x) <-> x = Some it \/ (In (Some it) sl /\ idx it k <> n).
+  Proof.
+    intros [Hlen Hw] Hn Hx. split; [split|].
+    - now rewrite set_nth_length.
+    - intros m it H. destruct (Nat.eq_dec m n) as [->|Hne].
+      + rewrite nth_set_nth_eq in H by assumption. now apply Hx.
+      + rewrite nth_set_nth_neq in H by assumption. now apply Hw.
+    - intro it. rewrite In_slots_nth. split.
+      + intros (m & H). destruct (Nat.eq_dec m n) as [->|Hne].
+        * rewrite nth_set_nth_eq in H by assumption. now left.
+        * rewrite nth_set_nth_neq in H by assumption. right. split.
+          -- apply In_slots_nth. now exists m.
+          -- rewrite (Hw m it H). assumption.
+      + intros [H|[H Hne]].
+        * exists n. now rewrite nth_set_nth_eq.
+        * exists (idx it k). rewrite nth_set_nth_neq by assumption.
+          apply (wf_slots_In sl k it); [split; assumption | assumption].
+  Qed.
+
+  Theorem wf_empty_dict : wf_dict (@empty_dict V) /\ keyed empty_dict /\ forall it, ~ stored empty_dict it.
+  Proof.
+    assert (Hno : forall it : item V, ~ stored empty_dict it).
+    { intros it H. unfold stored, empty_dict in H. cbn [d_slots] in H.
+      apply In_slots_nth in H. destruct H as (m & H). rewrite nth_repeatN in H. discriminate. }
+    split; [|split; [|assumption]].
+    - unfold wf_dict. split; [reflexivity|]. split; [cbn [empty_dict d_log]; lia|].
+      intros i it H. exfalso. apply (Hno it). unfold stored. apply In_slots_nth.
+      exists (N.to_nat i). now rewrite <- slot_nth.
+    - intros it H. exfalso. now apply (Hno it).
+  Qed.
+
+  (* an element whose slot (at size k) is the slot of [key] has that key, if the slot is held by [key];
+     and the other way round *)
+  Lemma other_key_other_slot (d : dict V) key it' : wf_dict d -> keyed d -> stored d it' ->
+    (forall it, slot d (hash_to_index (hf key) (d_log d)) = Some it -> it_key it = key) ->
+    (slot d (hash_to_index (hf key) (d_log d)) <> None) ->
+    (idx it' (d_log d) <> N.to_nat (hash_to_index (hf key) (d_log d)) <-> it_key it' <> key).
+  Proof.
+    intros Hwf Hkd Hst Hown Hocc. split.
+    - intros Hne Ek. apply Hne. rewrite idx_hash. rewrite (Hkd it' Hst), Ek. reflexivity.
+    - intros Hne Ei. apply Hne. rewrite idx_hash in Ei. apply N2Nat.inj in Ei.
+      apply (stored_slot d _ Hwf) in Hst. rewrite Ei in Hst. now apply Hown.
+  Qed.
+
+  (** store: the new table is well formed and holds exactly the old elements with a different key
+      plus the new (key, value). *)
+  Theorem store_elements (d d' : dict V) key v : wf_dict d -> keyed d ->
+    store d key (hf key) v = Ok d' ->
+    wf_dict d' /\
+    forall it, stored d' it <-> it = mkItem (hf key) key v \/ (stored d it /\ it_key it <> key).
+  Proof.
+    intros Hwf Hkd Hst. pose proof Hwf as Hwf0.
+    apply wf_dict_slots in Hwf. destruct Hwf as [Hw Hk]. pose proof Hw as [Hlen Hw'].
+    unfold store in Hst. cbv zeta in Hst.
+    remember (hash_to_index (hf key) (d_log d)) as i eqn:Ei.
+    assert (Hi : (N.to_nat i < length (d_slots d))%nat).
+    { rewrite Hlen. pose proof (hash_to_index_lt (hf key) (d_log d) ltac:(lia)) as H. rewrite <- Ei in H. lia. }
+    destruct (slot d i) as [it|] eqn:Es.
+    - assert (Hsto : stored d it).
+      { unfold stored. apply In_slots_nth. exists (N.to_nat i). now rewrite <- slot_nth. }
+      destruct (bytes_eqb (it_key it) key) eqn:Eb.
+      + (* same key: the value is replaced *)
+        apply bytes_eqb_eq in Eb. injection Hst as Hd; subst d'.
+        assert (Eh : it_hash it = hf key) by (rewrite (Hkd it Hsto), Eb; reflexivity).
+        rewrite Eh.
+        destruct (set_slot_elements (d_slots d) (d_log d) (N.to_nat i) (Some (mkItem (hf key) key v)) Hw Hi) as [W E].
+        { intros it0 H0. injection H0 as <-. rewrite idx_mk, Ei. reflexivity. }
+        split.
+        * apply wf_dict_slots. cbn [d_slots d_log]. split; assumption.
+        * assert (Hown : forall it0, slot d (hash_to_index (hf key) (d_log d)) = Some it0 -> it_key it0 = key).
+          { intros it0 H0. rewrite <- Ei, Es in H0. injection H0 as <-. assumption. }
+          assert (Hocc : slot d (hash_to_index (hf key) (d_log d)) <> None).
+          { rewrite <- Ei, Es. discriminate. }
+          intro it'. unfold stored at 1. cbn [d_slots]. rewrite E. split.
+          -- intros [H|[H Hne]]; [left; congruence|]. right. split; [assumption|].
+             apply (other_key_other_slot d key it' Hwf0 Hkd H Hown Hocc). now rewrite <- Ei.
+          -- intros [H|[H Hne]]; [left; congruence|]. right. split; [assumption|].
+             rewrite Ei. now apply (other_key_other_slot d key it' Hwf0 Hkd H Hown Hocc).
+      + (* another key holds the slot: grow until the two part *)
+        apply bytes_eqb_neq in Eb.
+        destruct (grow_until (32 - d_log d) (d_log d) (it_hash it) (hf key)) as [k'|] eqn:Eg; [|discriminate].
+        remember (rehash_slots (d_slots d) k') as R eqn:ER0.
+        remember (N.to_nat (hash_to_index (hf key) k')) as n eqn:En0.
+        injection Hst as Hd; subst d'.
+        apply grow_until_some in Eg. destruct Eg as [Hk' Hdiff].
+        assert (Hk'32 : (d_log d < k' <= 32)%nat) by lia.
+        assert (WR : wf_slots R k') by (rewrite ER0; apply rehash_wf).
+        assert (NC : no_collide (d_slots d) k') by (apply (grow_no_collide _ (d_log d) k' Hw); lia).
+        assert (ER : forall it0, In (Some it0) R <-> In (Some it0) (d_slots d)).
+        { intro it0. rewrite ER0. apply rehash_elements; [lia | assumption]. }
+        assert (Hn : (n < length R)%nat).
+        { rewrite ER0, rehash_length. pose proof (hash_to_index_lt (hf key) k' ltac:(lia)). lia. }
+        destruct (set_slot_elements R k' n (Some (mkItem (hf key) key v)) WR Hn) as [W E].
+        { intros it0 H0. injection H0 as <-. rewrite idx_mk, En0. reflexivity. }
+        (* no old element lands in the slot of the new one, and no old element has the new key *)
+        assert (Hfree : forall it0, stored d it0 -> idx it0 k' <> n).
+        { intros it0 H0 En. rewrite En0, idx_hash in En. apply N2Nat.inj in En.
+          pose proof (hash_to_index_coarsen _ _ (d_log d) k' ltac:(lia) En) as Ek. rewrite <- Ei in Ek.
+          apply (stored_slot d _ Hwf0) in H0. rewrite Ek, Es in H0. injection H0 as <-.
+          apply Hdiff. apply hash_to_index_mod; [lia | assumption]. }
+        assert (Hkey : forall it0, stored d it0 -> it_key it0 <> key).
+        { intros it0 H0 Ek. apply (Hfree it0 H0). rewrite idx_hash, (Hkd it0 H0), Ek, En0. reflexivity. }
+        split.
+        * apply wf_dict_slots. cbn [d_slots d_log]. split; [assumption | lia].
+        * intro it'. unfold stored at 1. cbn [d_slots]. rewrite E. rewrite ER. split.
+          -- intros [H|[H Hne]]; [left; congruence|]. right. split; [assumption | now apply Hkey].
+          -- intros [H|[H Hne]]; [left; congruence|]. right. split; [assumption | now apply Hfree].
+    - (* empty slot *)
+      injection Hst as Hd; subst d'.
+      destruct (set_slot_elements (d_slots d) (d_log d) (N.to_nat i) (Some (mkItem (hf key) key v)) Hw Hi) as [W E].
+      { intros it0 H0. injection H0 as <-. rewrite idx_mk, Ei. reflexivity. }
+      assert (Hfree : forall it0, stored d it0 -> idx it0 (d_log d) <> N.to_nat i).
+      { intros it0 H0 En. rewrite idx_hash in En. apply N2Nat.inj in En.
+        apply (stored_slot d _ Hwf0) in H0. rewrite En, Es in H0. discriminate. }
+      assert (Hkey : forall it0, stored d it0 -> it_key it0 <> key).
+      { intros it0 H0 Ek. apply (Hfree it0 H0). rewrite idx_hash, (Hkd it0 H0), Ek, Ei. reflexivity. }
+      split.
+      + apply wf_dict_slots. cbn [d_slots d_log]. split; assumption.
+      + intro it'. unfold stored at 1. cbn [d_slots]. rewrite E. split.
+        * intros [H|[H Hne]]; [left; congruence|]. right. split; [assumption | now apply Hkey].
+        * intros [H|[H Hne]]; [left; congruence|]. right. split; [assumption | now apply Hfree].
+  Qed.
+
+  (* consequences of an "elements" characterisation for [get] *)
+  Lemma keyed_of_elements (d d' : dict V) (P : item V -> Prop) :
+    keyed d -> (forall it, P it -> it_hash it = hf (it_key it)) ->
+    (forall it, stored d' it -> P it \/ stored d it) -> keyed d'.
+  Proof. intros Hkd HP H it Hs. destruct (H it Hs) as [A|A]; [now apply HP | now apply Hkd]. Qed.
+
+  Theorem store_ok (d d' : dict V) key v : wf_dict d -> keyed d ->
+    store d key (hf key) v = Ok d' ->
+    wf_dict d' /\ keyed d' /\
+    get d' key (hf key) = Some v /\
+    (forall k2, k2 <> key -> get d' k2 (hf k2) = get d k2 (hf k2)).
+  Proof.
+    intros Hwf Hkd Hst. destruct (store_elements d d' key v Hwf Hkd Hst) as [Hwf' E].
+    assert (Hkd' : keyed d').
+    { apply (keyed_of_elements d d' (fun it => it = mkItem (hf key) key v) Hkd).
+      - intros it ->. reflexivity.
+      - intros it H. apply E in H. tauto. }
+    split; [assumption|]. split; [assumption|]. split.
+    - apply (get_stored d' key v Hwf' Hkd'). apply E. now left.
+    - intros k2 Hne. apply option_eq_of_iff. intro v2.
+      rewrite (get_stored d' k2 v2 Hwf' Hkd'), (get_stored d k2 v2 Hwf Hkd), E. cbn [it_key]. split.
+      + intros [H|[H _]]; [|assumption]. exfalso. apply Hne. now injection H.
+      + intro H. right. split; assumption.
+  Qed.
+
+  (** [store] fails to terminate (Diverge) exactly when the slot is held by a different key whose
+      hash agrees with the new one on the low 32 bits. *)
+  Theorem store_diverge_iff (d : dict V) key h v : wf_dict d ->
+    (store d key h v = Diverge <->
+     exists it, slot d (hash_to_index h (d_log d)) = Some it /\ it_key it <> key /\
+                it_hash it mod 4294967296 = h mod 4294967296).
+  Proof.
+    intros (Hlen & Hk & Hidx). unfold store. cbv zeta.
+    remember (hash_to_index h (d_log d)) as i eqn:Ei.
+    assert (P32 : pow2 32 = 4294967296) by reflexivity.
+    destruct (slot d i) as [it|] eqn:Es.
+    - destruct (bytes_eqb (it_key it) key) eqn:Eb.
+      + split; [discriminate|]. intros (it0 & H0 & Hne & _). injection H0 as <-.
+        apply bytes_eqb_eq in Eb. contradiction.
+      + apply bytes_eqb_neq in Eb.
+        destruct (grow_until (32 - d_log d) (d_log d) (it_hash it) h) as [k'|] eqn:Eg.
+        * split; [discriminate|]. intros (it0 & H0 & _ & Hm). injection H0 as <-.
+          apply grow_until_some in Eg. destruct Eg as [Hk' Hdiff]. exfalso. apply Hdiff.
+          apply (mod_pow2_coarsen _ _ k' 32); [lia|]. now rewrite P32.
+        * split; [|reflexivity]. intros _. exists it. split; [reflexivity|]. split; [assumption|].
+          rewrite <- P32. destruct (Nat.eq_dec (d_log d) 32) as [E32|N32].
+          -- apply hash_to_index_mod; [lia|]. rewrite <- E32, <- Ei. now apply Hidx.
+          -- apply (grow_until_none _ _ _ _ Eg). lia.
+    - split; [discriminate|]. intros (it0 & H0 & _). discriminate.
+  Qed.
+
+  (** remove: well-formedness is kept (also across the halving), exactly the elements with the
+      removed key disappear. *)
+  Theorem remove_elements (d d' : dict V) key b : wf_dict d -> keyed d ->
+    remove d key (hf key) = (d', b) ->
+    wf_dict d' /\
+    (forall it, stored d' it <-> stored d it /\ it_key it <> key) /\
+    (b = true <-> exists v, get d key (hf key) = Some v).
+  Proof.
+    intros Hwf Hkd Hrm. pose proof Hwf as Hwf0.
+    apply wf_dict_slots in Hwf. destruct Hwf as [Hw Hk]. pose proof Hw as [Hlen Hw'].
+    unfold remove in Hrm. cbv zeta in Hrm. unfold get.
+    remember (hash_to_index (hf key) (d_log d)) as i eqn:Ei.
+    assert (Hi : (N.to_nat i < length (d_slots d))%nat).
+    { rewrite Hlen. pose proof (hash_to_index_lt (hf key) (d_log d) ltac:(lia)) as H. rewrite <- Ei in H. lia. }
+    (* the case where nothing is removed *)
+    assert (Hnone : (forall it, slot d i = Some it -> it_key it <> key) ->
+              forall it0, stored d it0 -> it_key it0 <> key).
+    { intros Hno it0 H0 Ek. pose proof (Hkd it0 H0) as Hh. rewrite Ek in Hh.
+      apply (stored_slot d _ Hwf0) in H0. rewrite Hh, <- Ei in H0. now apply (Hno it0). }
+    destruct (slot d i) as [it|] eqn:Es.
+    - assert (Hsto : stored d it).
+      { unfold stored. apply In_slots_nth. exists (N.to_nat i). now rewrite <- slot_nth. }
+      destruct (bytes_eqb (it_key it) key) eqn:Eb.
+      + apply bytes_eqb_eq in Eb.
+        destruct (set_slot_elements (d_slots d) (d_log d) (N.to_nat i) None Hw Hi) as [W E].
+        { intros it0 H0. discriminate. }
+        remember (set_nth (d_slots d) (N.to_nat i) None) as sl' eqn:Esl.
+        assert (Hown : forall it0, slot d (hash_to_index (hf key) (d_log d)) = Some it0 -> it_key it0 = key).
+        { intros it0 H0. rewrite <- Ei, Es in H0. injection H0 as <-. assumption. }
+        assert (Hocc : slot d (hash_to_index (hf key) (d_log d)) <> None).
+        { rewrite <- Ei, Es. discriminate. }
+        assert (E' : forall it0, In (Some it0) sl' <-> stored d it0 /\ it_key it0 <> key).
+        { intro it0. rewrite E. split.
+          - intros [H|[H Hne]]; [discriminate|]. split; [assumption|].
+            apply (other_key_other_slot d key it0 Hwf0 Hkd H Hown Hocc). now rewrite <- Ei.
+          - intros [H Hne]. right. split; [assumption|].
+            rewrite Ei. now apply (other_key_other_slot d key it0 Hwf0 Hkd H Hown Hocc). }
+        assert (Hb : true = true <-> exists v, Some (it_val it) = Some v).
+        { split; [intros _; now exists (it_val it) | reflexivity]. }
+        destruct (pow2 (d_log d) / 2 <? d_removals d + 1).
+        * destruct (Nat.ltb 4 (d_log d)) eqn:E4.
+          -- destruct (reducible sl') eqn:Er; cbn [andb] in Hrm.
+             ++ (* the table is halved *)
+                apply Nat.ltb_lt in E4.
+                injection Hrm as Hd Hbb; subst d' b.
+                assert (NC : no_collide sl' (d_log d - 1)) by (apply shrink_no_collide; [assumption | lia | assumption]).
+                split; [|split; [|assumption]].
+                ** apply wf_dict_slots. cbn [d_slots d_log]. split; [apply rehash_wf | lia].
+                ** intro it0. unfold stored at 1. cbn [d_slots].
+                   rewrite rehash_elements by (try assumption; lia). apply E'.
+             ++ injection Hrm as Hd Hbb; subst d' b. split; [|split; [|assumption]].
+                ** apply wf_dict_slots. cbn [d_slots d_log]. split; assumption.
+                ** intro it0. unfold stored at 1. cbn [d_slots]. apply E'.
+          -- cbn [andb] in Hrm. injection Hrm as Hd Hbb; subst d' b. split; [|split; [|assumption]].
+             ** apply wf_dict_slots. cbn [d_slots d_log]. split; assumption.
+             ** intro it0. unfold stored at 1. cbn [d_slots]. apply E'.
+        * injection Hrm as Hd Hbb; subst d' b. split; [|split; [|assumption]].
+          ** apply wf_dict_slots. cbn [d_slots d_log]. split; assumption.
+          ** intro it0. unfold stored at 1. cbn [d_slots]. apply E'.
+      + apply bytes_eqb_neq in Eb. injection Hrm as Hd Hbb; subst d' b.
+        split; [assumption|]. split.
+        * intro it0. split; [|tauto]. intro H. split; [assumption|]. apply Hnone; [|assumption].
+          intros it1 H1. injection H1 as <-. assumption.
+        * split; [discriminate | intros (v & Hv); discriminate].
+    - injection Hrm as Hd Hbb; subst d' b. split; [assumption|]. split.
+      + intro it0. split; [|tauto]. intro H. split; [assumption|]. apply Hnone; [|assumption].
+        intros it1 H1. discriminate.
+      + split; [discriminate | intros (v & Hv); discriminate].
+  Qed.
+
+  Theorem remove_ok (d d' : dict V) key b : wf_dict d -> keyed d ->
+    remove d key (hf key) = (d', b) ->
+    wf_dict d' /\ keyed d' /\
+    get d' key (hf key) = None /\
+    (forall k2, k2 <> key -> get d' k2 (hf k2) = get d k2 (hf k2)) /\
+    (b = true <-> exists v, get d key (hf key) = Some v).
+  Proof.
+    intros Hwf Hkd Hrm. destruct (remove_elements d d' key b Hwf Hkd Hrm) as (Hwf' & E & Hb).
+    assert (Hkd' : keyed d').
+    { intros it H. apply E in H. apply Hkd. tauto. }
+    split; [assumption|]. split; [assumption|]. split; [|split; [|assumption]].
+    - destruct (get d' key (hf key)) as [v|] eqn:G; [|reflexivity].
+      apply (get_stored d' key v Hwf' Hkd') in G. apply E in G. cbn [it_key] in G. tauto.
+    - intros k2 Hne. apply option_eq_of_iff. intro v2.
+      rewrite (get_stored d' k2 v2 Hwf' Hkd'), (get_stored d k2 v2 Hwf Hkd), E. cbn [it_key]. tauto.
+  Qed.
+
+  (** Every table produced from the empty one by stores and removes is well formed and keyed;
+      so the SCAN theorems apply to any history of the dictionary. *)
+  Inductive reachable : dict V -> Prop :=
+  | reach_empty : reachable empty_dict
+  | reach_store d d' key v : reachable d -> store d key (hf key) v = Ok d' -> reachable d'
+  | reach_remove d key : reachable d -> reachable (fst (remove d key (hf key))).
+
+  Theorem reachable_wf d : reachable d -> wf_dict d /\ keyed d.
+  Proof.
+    induction 1 as [|d d' key v Hr [IH1 IH2] Hst|d key Hr [IH1 IH2]].
+    - destruct wf_empty_dict as (A & B & _). now split.
+    - destruct (store_ok d d' key v IH1 IH2 Hst) as (A & B & _). now split.
+    - destruct (remove d key (hf key)) as [d' b] eqn:E. cbn [fst].
+      destruct (remove_ok d d' key b IH1 IH2 E) as (A & B & _). now split.
+  Qed.
+
+  (* for reachable tables, "present" in the sense of C17_complete is what [get] observes *)
+  Lemma present_get (d : dict V) keep n key v : wf_dict d -> keyed d ->
+    get d key (hf key) = Some v -> keep (mkItem (hf key) key v) = true ->
+    present key (hf key) (d, keep, n).
+  Proof.
+    intros Hwf Hkd G Hkp. unfold present. exists v. split; [|assumption].
+    apply (get_stored d key v Hwf Hkd) in G. apply (stored_slot d _ Hwf) in G. exact G.
+  Qed.
+
+  (** Capstone: SCAN over any history of the dictionary.  Each call sees a table reachable by
+      stores/removes (arbitrarily many between two calls); a key that [get] finds in every one of
+      these tables (whatever its value at the time) and that passes every filter is reported. *)
+  Theorem C17_complete_reachable : forall (calls : list (@call V)) outs key,
+    calls <> [] ->
+    Forall (fun cl : call => reachable (fst (fst cl)) /\ (1 <= snd cl)%nat) calls ->
+    run calls 0 = (0, outs) ->
+    Forall (fun cl : call => exists v, get (fst (fst cl)) key (hf key) = Some v /\
+                                      snd (fst cl) (mkItem (hf key) key v) = true) calls ->
+    exists out v, In out outs /\ In (mkItem (hf key) key v) out.
+  Proof.
+    intros calls outs key Hne Hok Hrun Hpres.
+    apply (C17_complete calls outs Hne); [| assumption |].
+    - apply Forall_forall. intros [[d keep] n] Hin.
+      rewrite Forall_forall in Hok. destruct (Hok _ Hin) as [Hr Hn]. cbn [fst snd] in *.
+      split; [apply (reachable_wf d Hr) | assumption].
+    - apply Forall_forall. intros [[d keep] n] Hin.
+      rewrite Forall_forall in Hok, Hpres. destruct (Hok _ Hin) as [Hr _].
+      destruct (Hpres _ Hin) as (v & G & Hkp). cbn [fst snd] in *.
+      destruct (reachable_wf d Hr) as [A B]. now apply (present_get d keep n key v A B).
+  Qed.
+End DictOps.
+
+Print Assumptions wf_empty_dict.
+Print Assumptions store_elements.
+Print Assumptions store_ok.
+Print Assumptions store_diverge_iff.
+Print Assumptions remove_elements.
+Print Assumptions remove_ok.
+Print Assumptions reachable_wf.
+Print Assumptions C17_complete_reachable.
+
 (* ================================================================== *)
 (** * Examples                                                          *)
 (* ================================================================== *)
@@ -898,13 +1673,37 @@ Module Examples.
   Definition all : item nat -> bool := fun _ => true.
   Definition keys (l : list (item nat)) := map (fun it => it_key it) l.
 
+  (* a toy hash function for the keys used below *)
+  Definition hfE (k : bytes) : N :=
+    match k with
+    | [1] => 1 | [2] => 2 | [3] => 3 | [4] => 12 | [5] => 17 | [9] => 4294967297 | _ => 0
+    end.
+
   (* 16 slots: keys 1,2,3,4 with hashes 1,2,3,12 *)
-  Definition dA := st (st (st (st empty_dict 1 1 10) 2 2 20) 3 3 30) 4 12 40.
+  Definition d1 := st empty_dict 1 1 10.
+  Definition d2 := st d1 2 2 20.
+  Definition d3 := st d2 3 3 30.
+  Definition dA := st d3 4 12 40.
   (* key 5 with hash 17 collides with key 1 in 16 slots: the table doubles to 32 slots *)
   Definition dB := st dA 5 17 50.
 
   Example ex_sizes : (d_log dA, d_log dB) = (4%nat, 5%nat).
   Proof. vm_compute. reflexivity. Qed.
+
+  Lemma reach_dA : reachable hfE dA.
+  Proof.
+    apply (reach_store hfE d3 dA [4] 40%nat); [|vm_compute; reflexivity].
+    apply (reach_store hfE d2 d3 [3] 30%nat); [|vm_compute; reflexivity].
+    apply (reach_store hfE d1 d2 [2] 20%nat); [|vm_compute; reflexivity].
+    apply (reach_store hfE empty_dict d1 [1] 10%nat); [|vm_compute; reflexivity].
+    apply reach_empty.
+  Qed.
+  Lemma reach_dB : reachable hfE dB.
+  Proof. apply (reach_store hfE dA dB [5] 50%nat); [apply reach_dA | vm_compute; reflexivity]. Qed.
+
+  (* the hypotheses of the main theorems hold for these tables *)
+  Example ex_wf : wf_dict dA /\ wf_dict dB.
+  Proof. split; [apply (reachable_wf hfE dA reach_dA) | apply (reachable_wf hfE dB reach_dB)]. Qed.
 
   (* single calls *)
   Example ex_call_1 : let (c, out) := scan_call dA all 0 2 in (c, keys out) = (1, [[4]; [2]]).
@@ -917,6 +1716,19 @@ Module Examples.
     let (c, outs) := run [(dA, all, 2%nat); (dB, all, 100%nat)] 0 in
     (c, map keys outs) = (0, [[[4]; [2]]; [[1]; [5]; [3]]]).
   Proof. vm_compute. reflexivity. Qed.
+
+  (* C17_complete applied to that iteration: key 1 (hash 1), present throughout, is reported *)
+  Example ex_complete_instance :
+    exists out v, In out (snd (run [(dA, all, 2%nat); (dB, all, 100%nat)] 0)) /\ In (mkItem 1 [1] v) out.
+  Proof.
+    destruct ex_wf as [WA WB].
+    apply (C17_complete [(dA, all, 2%nat); (dB, all, 100%nat)]).
+    - discriminate.
+    - constructor; [split; [exact WA | lia] | constructor; [split; [exact WB | lia] | constructor]].
+    - vm_compute. reflexivity.
+    - constructor; [exists 10%nat; split; vm_compute; reflexivity |].
+      constructor; [exists 10%nat; split; vm_compute; reflexivity | constructor].
+  Qed.
 
   (* an iteration across a halving: the cursor handed out by the 32-slot table (17, an odd slot)
      is rounded down in the 16-slot table: key 1 is reported twice, nothing is skipped *)
@@ -933,5 +1745,25 @@ Module Examples.
 
   (* a filter does not consume COUNT for rejected items: the walk goes on to the first match *)
   Example ex_filter : let (c, out) := scan_call dB (fun it => it_hash it <? 3) 0 1 in (c, keys out) = (1, [[2]]).
+  Proof. vm_compute. reflexivity. Qed.
+
+  (* COUNT >= number of slots: everything in one call (C17_single_call) *)
+  Example ex_single : let (c, out) := scan_call dB all 0 32 in (c, keys out) = (0, [[4]; [2]; [1]; [5]; [3]]).
+  Proof. vm_compute. reflexivity. Qed.
+
+  (* store / get / remove *)
+  Example ex_get : (get dB [5] 17, get dB [1] 1, get dB [7] 7) = (Some 50%nat, Some 10%nat, None).
+  Proof. vm_compute. reflexivity. Qed.
+
+  (* key 9 has hash 2^32 + 1, equal to the hash of key 1 on the low 32 bits: the Go loop never ends *)
+  Example ex_diverge : store dA [9] (hfE [9]) 90%nat = Diverge.
+  Proof. vm_compute. reflexivity. Qed.
+
+  (* a remove that triggers the halving (17th removal in a 32-slot table): 32 -> 16 slots, nothing lost *)
+  Definition dB16 : dict nat := mkDict 5 (d_slots dB) 5 16.
+  Example ex_remove_shrink :
+    let (d', b) := remove dB16 [5] 17 in
+    (b, d_log d', get d' [5] 17, get d' [1] 1, get d' [2] 2, get d' [3] 3, get d' [4] 12)
+    = (true, 4%nat, None, Some 10%nat, Some 20%nat, Some 30%nat, Some 40%nat).
   Proof. vm_compute. reflexivity. Qed.
 End Examples.
